@@ -214,7 +214,7 @@ def finish(chk, wall_s, seed=0, selftest=None, write=True):
         cov['selftest'] = selftest
     ev = dict(property_id=prop, tier=chk.tier, seed=int(seed), level='other', coverage=cov,
               assumptions=chk.assumptions, wall_s=round(wall_s, 3), violations=len(new))
-    if write:
+    if write and not os.environ.get('AVS_NO_EVIDENCE') and chk.src.root == '/repo':
         evdir = os.path.join(VERIF, 'evidence')
         os.makedirs(evdir, exist_ok=True)
         with open(os.path.join(evdir, f'{prop}.json'), 'w', encoding='utf-8') as f:
